@@ -149,16 +149,6 @@ fn run_g<C: Codec>(c: &Case, trace: bool) -> RunOut {
                 );
             }
         }
-        if let Fe::Ok { consumed: Some(n), .. } = &ar.fe {
-            if *n != len {
-                out.violate(sig("A:suffix-consumed"), format!("async decoder consumed {n} bytes of a {len}-byte packet followed by a suffix"));
-            }
-        }
-        if let Fe::Ok { consumed: Some(n), .. } = &pr.fe {
-            if *n != len {
-                out.violate(sig("P:suffix-consumed"), format!("poll decoder consumed {n} bytes of a {len}-byte packet followed by a suffix"));
-            }
-        }
     }
     out
 }
